@@ -117,6 +117,7 @@ LoginEvents ==
 
 ProbeLogout(c) ==
   { [Ev("Probe", b) EXCEPT !.k = k] : b \in Browsers, k \in {NONE, "alt1", "bare"} } \cup
+  { [Ev("Get", b) EXCEPT !.k = "login"] : b \in Browsers } \cup
   { [Ev("Logout", b) EXCEPT !.method = m] : b \in Browsers, m \in {c.logoutMethod, "GET"} }
 
 Ticks(ds) == { [Ev("Tick", NONE) EXCEPT !.d = d] : d \in ds }
@@ -188,6 +189,7 @@ Events(S, c) ==
          { [Ev("LoginPost", b) EXCEPT !.pid = p, !.pw = w, !.rm = Has(c, "remember")] :
               b \in {"b1"}, p \in {"u1", "u2"}, w \in {1, 2} }
          \cup { Ev(a, "b1") : a \in {"TotpSetup", "SmsSetupGet", "RecoveryRegen"} }
+         \cup { [Ev("Get", "b1") EXCEPT !.k = k] : k \in {"totpConfirm", "totpRemove", "smsConfirm", "recoveryRegen"} }
          \cup { [Ev("TotpConfirm", "b1") EXCEPT !.tok = t, !.code = k] : t \in 1..S.iss["ts"], k \in {1, -1} }
          \cup { [Ev("TotpRemove", "b1") EXCEPT !.tok = t, !.code = k] : t \in 1..S.iss["ts"], k \in {3, -1} }
          \cup { [Ev("TotpRemove", "b1") EXCEPT !.rc = 1, !.g = g] : g \in 1..S.iss["rc"] }
